@@ -51,13 +51,7 @@ func (fx *Fx) evalMulti(st *State, e ast.Expr) []Val {
 		r := st.allocRef()
 		c.declareFun("fn_code", []string{"Int"}, "Int")
 		st.assume(fmt.Sprintf("(= (fn_code %s) %d)", r, c.codeId(fi.Key)))
-		if fi.Spec != nil && !c.dry {
-			for k, ci := range fi.Spec.ClosureInv {
-				// the closure's invariant over its captured variables holds where the closure is created
-				env := fx.specEnv(st, st, e.Body.Lbrace)
-				c.oblige(st, "closure-inv", clauseAnchor("established("+fi.Name+")", ci, k), fx.specBool(env, ci.Expr), ci.Text, fx.w.pos(e.Pos()))
-			}
-		}
+		fx.establishClosureInv(st, e)
 		return []Val{{T: r, S: "Int", GT: fx.info.TypeOf(e)}}
 	case *ast.CompositeLit:
 		return []Val{fx.evalComposite(st, e)}
